@@ -46,14 +46,18 @@ STEP = 0.16          # seconds between two successive completions
 
 
 # ------------------------------------------------------------------ comparing outputs
-def h5_digest(path, skip=('metadata',)):
-    """{dataset path: (dtype, shape, sha1 of the bytes)} for every dataset of an HDF5 file."""
+def h5_digest(path, skip=('metadata',), values_only=False):
+    """{dataset path: (dtype, shape, sha1 of the bytes)} for every dataset of an HDF5 file.
+    values_only: integer arrays are compared as integers whatever their width (the width of an index array is
+    chosen from its largest value by whichever code path wrote it; it is storage, not content)."""
     out = {}
 
     def visit(name, obj):
         if isinstance(obj, h5py.Dataset) and name.split('/')[-1] not in skip:
             v = obj[()]
             if isinstance(v, np.ndarray):
+                if values_only and v.dtype.kind in 'iu':
+                    v = v.astype(np.int64)
                 b = v.tobytes() if v.dtype != object else repr(v.tolist()).encode()
                 out[name] = (str(v.dtype), list(v.shape), hashlib.sha1(b).hexdigest())
             else:
@@ -117,7 +121,12 @@ def schedules(rng, k, limit):
     perms = list(itertools.permutations(range(k)))
     if len(perms) <= limit:
         return perms
-    keep = [perms[0], perms[-1]] + rng.sample(perms[1:-1], limit - 2)
+    # always: dispatch order, its reverse, and the order that keeps the first and the last worker in place and
+    # reverses the ones in between (a gathered list whose two ends look sorted although its middle is not)
+    ends_fixed = (0,) + tuple(range(k - 2, 0, -1)) + (k - 1,)
+    keep = [perms[0], perms[-1]] + ([ends_fixed] if k >= 4 else [])
+    rest = [p_ for p_ in perms[1:-1] if p_ not in keep]
+    keep += rng.sample(rest, max(0, limit - len(keep)))
     return keep
 
 
@@ -971,6 +980,69 @@ def designed_hash_seed_runs(ctx, rng, tag, shape, seeds):
 
 
 # ------------------------------------------------------------------ entry points
+def marker_worker_sweep(ctx, rng, tag):
+    """W on the reference-marker stage: one statistics file, find_markers_for_all_taxonomy_pairs with 1..4 workers,
+    the marker files compared bitwise.  The reference has a block of identical twin clusters (no marker between any
+    two of them), so that whole runs of consecutive pairs are marker-free: the per-worker pieces that are merged
+    then differ in kind (with / without any marker) from one worker count to the next."""
+    fb = ctx.scratch / f'msweep{tag}'
+    fb.mkdir()
+    n_distinct, n_twins = rng.randrange(3, 6), rng.randrange(4, 7)
+    gt = trees.one_level(n_distinct + n_twins, rng)
+    leaves = sorted(n for n, _ in gt.model[-1])
+    ng = rng.randrange(10, 16)
+    prof = {lf: [rng.choice([0, 0, 0, 20, 50, 200]) for _ in range(ng)] for lf in leaves}
+    # the twins are the LAST leaves in name order (pairs are enumerated in sorted leaf order): same cells exactly
+    twin_rows = [[max(0, p_ + rng.randrange(-2, 3)) if p_ > 0 else rng.choice([0, 0, 1]) for p_ in prof[leaves[-1]]]
+                 for _ in range(rng.randrange(4, 7))]
+    rows, labels = [], []
+    for lf in leaves:
+        if lf in leaves[-n_twins:]:
+            these = [list(r_) for r_ in twin_rows]
+        else:
+            these = [[max(0, p_ + rng.randrange(-2, 3)) if p_ > 0 else rng.choice([0, 0, 0, 1]) for p_ in prof[lf]]
+                     for _ in range(rng.randrange(4, 8))]
+        rows += these
+        labels += [gt.name(lf)] * len(these)
+    order = list(range(len(rows)))
+    rng.shuffle(order)
+    M = np.array([rows[i] for i in order], dtype=np.float32)
+    genes = [pipeline.gname(g) for g in range(ng)]
+    gen.write_h5ad(fb / 'ref.h5ad', M, [f'r{i}' for i in range(len(rows))], genes, encoding=rng.choice(['csr', 'dense']),
+                   obs_cols={gt.levels[0]: [labels[j] for j in order]})
+    with K.quiet():
+        K.stats_call(fb, fb, gt, 50, 1)()
+    digests, widths = {}, {}
+    for p in (1, 2, 3, 4):
+        d = fb / f'w{p}'
+        d.mkdir()
+        res = {'ok': True, 'error': None}
+        try:
+            with K.quiet():
+                K.markers_call(fb / 'stats.h5', d, p)()
+        except Exception as e:      # noqa
+            res = {'ok': False, 'error': f'{type(e).__name__}: {e}'[:200]}
+        digests[p] = h5_digest(d / 'refm.h5', values_only=True) if res['ok'] else res
+        widths[p] = {k_: v_[0] for k_, v_ in h5_digest(d / 'refm.h5').items()} if res['ok'] else None
+        ctx.count(('marker-sweep', tag, p), nontrivial=True)
+    ctx.dist('W-markers', f'{n_distinct} distinct + {n_twins} twin clusters')
+    if any(widths[p] is not None and widths[1] is not None and widths[p] != widths[1] for p in (2, 3, 4)):
+        # observed: the serial route writes int64 pointer arrays, the parallel route the narrowest unsigned type
+        ctx.dist('W-markers-integer-width-differs-between-worker-counts', 'yes (values equal: storage, not content)')
+    base = digests[1]
+    for p in (2, 3, 4):
+        if digests[p] != base:
+            ctx.disagreements_checked += 1
+            keys = diff_keys(base, digests[p]) if isinstance(base, dict) and isinstance(digests[p], dict) and 'ok' not in base and 'ok' not in digests[p] else [str(base)[:100], str(digests[p])[:100]]
+            ctx.violation(f'reference markers differ between n_processors=1 and n_processors={p} on one statistics file '
+                          f'({n_distinct} distinct + {n_twins} identical clusters): {keys}',
+                          {'class': 'c04-markers-worker-count-dependent', 'kind': 'marker-worker-sweep', 'tree': gt.data,
+                           'genes': genes, 'M': M.tolist(), 'labels': [labels[j] for j in order], 'n_processors': [1, p],
+                           'differing': keys})
+            break
+    shutil.rmtree(fb, ignore_errors=True)
+
+
 def run(ctx):
     rng = ctx.rng
     if not faults.guard_on():
@@ -1002,7 +1074,7 @@ def run(ctx):
     ]
     q = ctx.quick()
     lim3, lim4 = (6, 6) if q else (6, 24)
-    mapping_schedules(ctx, rng, 'a', n_cells=14, chunk_size=5, n_processors=3, limit=lim3)   # files 0_5, 10_14, 5_10: name order != row order
+    mapping_schedules(ctx, rng, 'a', n_cells=18, chunk_size=5, n_processors=4, limit=lim3)   # files 0_5, 10_15, 15_18, 5_10: name order != row order
     shared_list_schedules(ctx, rng, 'a', n_cells=9, chunk_size=3, limit=lim3)
     if not q:
         mapping_schedules(ctx, rng, 'b', n_cells=12, chunk_size=3, n_processors=4, limit=lim4)
@@ -1060,6 +1132,8 @@ def run(ctx):
         stats_bitwise(ctx, rng, 'e', 5, 'log2CPM', reps=3, limit=12)
         stats_bitwise(ctx, rng, 'f', 3, 'log2CPM', reps=5, limit=lim3)
     faults.uninstall()
+    for i in range(2 if q else 12):
+        marker_worker_sweep(ctx, rng, f'{i}')
     hash_seed_runs(ctx, rng, 'a', [0, 1, 2] if q else [0, 1, 2, 3, 4, 5])
     if not q:
         hash_seed_runs(ctx, rng, 'b', [0, 7, 11, 12345])
